@@ -32,6 +32,7 @@ pub fn run(args: &[String]) -> i32 {
     };
     let mut planes = Airplanes::new();
     let mut total_added = 0u64;
+    let mut flag_mismatch = 0u64;
     let mut most = 0usize;
     for line in txt.lines() {
         let Some(hex) = line.trim_end_matches('\r').strip_prefix('*').and_then(|l| l.strip_suffix(';')) else { continue };
@@ -43,8 +44,15 @@ pub fn run(args: &[String]) -> i32 {
             continue;
         }
         if let Ok(frame) = Frame::from_bytes(&bytes) {
-            if planes.action(frame, (lat, lon), range) == Added::Yes {
+            // "newly added" is counted from the tracked set itself, not from the flag `action`
+            // returns (a wrong flag is C12's business; here it would hide a wrong total on screen)
+            let before = planes.len();
+            let flag = planes.action(frame, (lat, lon), range) == Added::Yes;
+            if planes.len() > before {
                 total_added += 1;
+            }
+            if flag != (planes.len() > before) {
+                flag_mismatch += 1;
             }
             most = most.max(planes.len());
         }
@@ -69,6 +77,6 @@ pub fn run(args: &[String]) -> i32 {
             "msgs": st.num_messages.to_string(),
         }));
     }
-    println!("{}", json!({"rows": rows, "len": planes.len(), "total_added": total_added, "most": most}));
+    println!("{}", json!({"rows": rows, "len": planes.len(), "total_added": total_added, "most": most, "added_flag_mismatches": flag_mismatch}));
     0
 }
